@@ -149,6 +149,7 @@ static uint64_t *gen(char ty, int pat, size_t n, uint64_t seed)
                 case 6: v = dbits((double)(r % 16)); break;
                 case 7: v = dbits((double)(r % 1000003)); break;
                 case 9: v = (r % 64 == 0) ? 0x3FF0000000000000ULL : 0x4000000000000000ULL; break;
+                case 10: v = (i > 0 && (i % 40 < 16 || i % 40 >= 32)) ? 0x4000000000000000ULL : 0x3FF0000000000000ULL; break;
                 default: v = explicit_arr[i]; break;
             }
         } else {
@@ -162,6 +163,7 @@ static uint64_t *gen(char ty, int pat, size_t n, uint64_t seed)
                 case 6: v = r % 16; break;
                 case 7: v = r % 1000003; break;
                 case 9: v = (r % 64 == 0) ? 5 : 9; break;
+                case 10: v = (i > 0 && (i % 40 < 16 || i % 40 >= 32)) ? 2 : 1; break;
                 default: v = explicit_arr[i]; break;
             }
         }
